@@ -16,6 +16,31 @@ except ImportError:
 SH = []   # shadow frames, outermost first
 
 
+class BareNamespace:
+    """the least a class-body namespace has to offer: item access"""
+
+    def __init__(self):
+        self.d = {}
+
+    def __getitem__(self, k):
+        return self.d[k]
+
+    def __setitem__(self, k, v):
+        self.d[k] = v
+
+    def __delitem__(self, k):
+        del self.d[k]
+
+
+class BareMeta(type):
+    @classmethod
+    def __prepare__(mcls, name, bases, **kw):
+        return BareNamespace()
+
+    def __new__(mcls, name, bases, ns, **kw):
+        return type.__new__(mcls, name, bases, dict(ns.d))
+
+
 def level(plan, i, action):
     SH.append(sys._getframe())
     try:
@@ -43,6 +68,16 @@ def level(plan, i, action):
                 co().send(None)
             except StopIteration as si:
                 return si.value
+        if kind == "k":   # a class body in between, executing in a namespace object that is no dict (metaclass __prepare__)
+            box = {}
+
+            class Body(metaclass=BareMeta):
+                SH.append(sys._getframe())
+                try:
+                    box["r"] = level(plan, i + 1, action)
+                finally:
+                    SH.pop()
+            return box["r"]
         if kind == "G":   # continue in a new greenlet (its parent is the current one)
             gr = greenlet.greenlet(level)
             return gr.switch(plan, i + 1, action)
